@@ -46,10 +46,12 @@ var coqPrelude = []string{
 }
 
 type Replay struct {
-	Kind  string  `json:"kind"` // enc | dec
-	Specs []PSpec `json:"specs,omitempty"`
-	Hex   string  `json:"hex,omitempty"`
-	What  string  `json:"what,omitempty"`
+	Mode  string    `json:"mode,omitempty"`  // alias: seq | conc
+	Metas [][]PSpec `json:"metas,omitempty"` // alias: the metadata values of the history
+	Kind  string    `json:"kind"`            // enc | dec | alias
+	Specs []PSpec   `json:"specs,omitempty"`
+	Hex   string    `json:"hex,omitempty"`
+	What  string    `json:"what,omitempty"`
 }
 
 type runner struct {
@@ -328,7 +330,7 @@ func main() {
 	r := &runner{c: c, w: &worker{}, perClass: map[string]int{}, fails: map[string][]vlib.Failure{}, rawDec: map[string][]rawFail{}}
 	defer r.w.stop()
 	defer r.flush()
-	c.Res.Rule = "enc: EXHAUSTIVE over every sequence of length 1..3 (quick) / 1..4 (thorough) of a 12-symbol alphabet {bitswap, gateway, graphsync-filecoin x 4 piece CIDs/flag settings, 6 unknown codes below/between/above the known IDs with payloads 0..128}; SAMPLED: sequences of length 4..6 with random payloads 0..300 B and 9 piece CIDs, unknown payload length sweep 0..300 and 1000..1024, metadata.HTTPV1() combinations, 13..40 protocols with distinct IDs; non-trivial = at least 2 protocols one of which has a variable-length encoding. dec: valid encodings, all their truncations, bit flips, byte edits, all ordered pairs and random trains concatenated as given, hostile/boundary/malformed length prefixes, every varint of valid encodings (protocol code, unknown size, gateway length, the varints inside a CIDv1) re-spelled non-minimally with 1..3 and up-to-10-byte padding, padded size varints in front of payloads overlapping a well-formed protocol sequence at every alignment, hand-written non-canonical DAG-CBOR, random bytes <= 1 KiB; non-trivial = accepted with >= 2 protocols, or rejected input of >= 3 bytes. lim: largest graphsync link the DAG-CBOR budget admits"
+	c.Res.Rule = "enc: EXHAUSTIVE over every sequence of length 1..3 (quick) / 1..4 (thorough) of a 12-symbol alphabet {bitswap, gateway, graphsync-filecoin x 4 piece CIDs/flag settings, 6 unknown codes below/between/above the known IDs with payloads 0..128}; SAMPLED: sequences of length 4..6 with random payloads 0..300 B and 9 piece CIDs, unknown payload length sweep 0..300 and 1000..1024, metadata.HTTPV1() combinations, 13..40 protocols with distinct IDs; non-trivial = at least 2 protocols one of which has a variable-length encoding. dec: valid encodings, all their truncations, bit flips, byte edits, all ordered pairs and random trains concatenated as given, hostile/boundary/malformed length prefixes, every varint of valid encodings (protocol code, unknown size, gateway length, the varints inside a CIDv1) re-spelled non-minimally with 1..3 and up-to-10-byte padding, padded size varints in front of payloads overlapping a well-formed protocol sequence at every alignment, hand-written non-canonical DAG-CBOR, random bytes <= 1 KiB; non-trivial = accepted with >= 2 protocols, or rejected input of >= 3 bytes. alias (direct oracle only, no Coq cases): histories of 2..4 different metadata values marshalled in turn with every returned slice kept and re-checked, input buffers overwritten after decoding, Get/Protocols results re-checked after later activity, plus concurrent rounds. lim: largest graphsync link the DAG-CBOR budget admits"
 	c.Res.Exhaustive = false
 	c.Note(fmt.Sprintf("metadata.MaxMetadataSize = %d", metadata.MaxMetadataSize))
 
@@ -348,6 +350,16 @@ func main() {
 				c.Fail("enc:"+fail+":"+specSig(rp.Specs), desc, rp)
 			} else {
 				fmt.Println("oracles hold on this input")
+			}
+		case "alias":
+			class, desc, obs := r.aliasOnce(rp.Mode, rp.Metas)
+			fmt.Printf("replay alias (%s): metadata values = %s\n  observations: %s\n", rp.Mode, metasSig(rp.Metas), obs)
+			c.Eval()
+			if class != "" {
+				fmt.Println("ORACLE-FAIL:", class, "::", desc)
+				c.Fail("alias:"+rp.Mode+":"+class+":"+metasSig(rp.Metas), desc, rp)
+			} else {
+				fmt.Println("oracles hold on this history")
 			}
 		case "dec":
 			b := mustHex(rp.Hex)
@@ -446,6 +458,49 @@ func main() {
 			specs[j], specs[q] = specs[q], specs[j]
 		}
 		r.doEnc("many-distinct", specs)
+	}
+
+	// ---- aliasing / history axis (oracle only) ------------------------------
+	ra := c.Rng.Fork("alias")
+	pool := [][]PSpec{{al[0]}, {al[1]}, {al[5]}, {al[7]}, {al[0], al[1]}, {al[6], al[0]}, {al[7], al[2], al[1]},
+		{al[8]}, {al[0], al[5], al[10], al[11]}, {al[9], al[3]}, {{K: "httpv1"}, al[0]}, {al[11]}}
+	for i := range pool {
+		for j := range pool {
+			if i != j {
+				r.doAlias("seq", [][]PSpec{pool[i], pool[j]})
+			}
+		}
+	}
+	for i, n := 0, c.Pick(120, 1500); i < n; i++ {
+		k := 3 + ra.Intn(2)
+		perm := make([]int, len(pool))
+		for j := range perm {
+			perm[j] = j
+		}
+		for j := len(perm) - 1; j > 0; j-- {
+			q := ra.Intn(j + 1)
+			perm[j], perm[q] = perm[q], perm[j]
+		}
+		metas := make([][]PSpec, k)
+		for j := range metas {
+			metas[j] = pool[perm[j]]
+			if ra.Intn(4) == 0 { // a value outside the pool
+				sp := make([]PSpec, 1+ra.Intn(4))
+				for q := range sp {
+					sp[q] = randomSpec(ra, al)
+				}
+				metas[j] = sp
+			}
+		}
+		r.doAlias("seq", metas)
+	}
+	for i, n := 0, c.Pick(6, 40); i < n; i++ {
+		k := 4 + ra.Intn(5)
+		metas := make([][]PSpec, k)
+		for j := range metas {
+			metas[j] = pool[(i*5+j*7)%len(pool)]
+		}
+		r.doAlias("conc", metas)
 	}
 
 	// ---- decode side -------------------------------------------------------
